@@ -502,6 +502,10 @@ func pickStrNear(rng *rand.Rand, col *Col) string {
 
 // likePattern derives a metacharacter-free pattern from a cell.
 func likePattern(rng *rand.Rand, col *Col) string {
+	if rng.Intn(6) == 0 {
+		// a few regular expressions (a small fixed set, so that one pattern meets both like and ilike within a process)
+		return []string{"a.b", "^a", "b$", "[ab]+", ".", "a|B", "(a|A)b", "\\d+", "%a.%", "x?y", "%[A-C]", "B.R"}[rng.Intn(12)]
+	}
 	base := pickStrNear(rng, col)
 	// keep it regexp-free and ASCII (the exact matcher rules are the business of C18)
 	var sb strings.Builder
